@@ -88,3 +88,17 @@ def lower_order_periodic(case, params):
     if o is None or 'lower_order' not in case.get('what', '') or 'NameError' not in case.get('what', ''):
         return False
     return any(_dir_flags(b)['periodic'] for b in o['bases'])
+
+
+def nonperiodic_end_split(case, params):
+    """split() at a value equal to end() of a non-periodic, non-open direction raises IndexError (the knot
+    insertion at end() that precedes the slicing fails, see C04-nonperiodic-end)"""
+    o = _obj(case)
+    if o is None or case.get('op') != 'split' or 'IndexError' not in case.get('what', ''):
+        return False
+    b = o['bases'][case['direction']]
+    if b['periodic'] >= 0:
+        return False
+    k = [Fr(x) for x in b['knots']]
+    end = k[len(k) - b['order']]
+    return any(Fr(x) == end for x in case.get('points', []))
